@@ -405,7 +405,14 @@ func runSim(rng *rand.Rand, tier string, k int) Case {
 		case op <= 4:
 			c.recSug(g, faulty, lagP)
 		case op == 5:
-			c.deployReady(g)
+			if g.max != nil && rng.Intn(4) == 0 {
+				// in the middle of the run the user re-applies the Experiment with the same budget and a changed label
+				r := c.s.editMax(g.ns, g.name, *g.max)
+				c.emit(fmt.Sprintf("SIM editMax %s %s %d", g.ns, g.name, *g.max), "ok="+b01(r))
+				c.tags["experiment-relabelled-mid-run"] = true
+			} else {
+				c.deployReady(g)
+			}
 		case op <= 7:
 			if len(ts) > 0 {
 				t := ts[rng.Intn(len(ts))]
